@@ -57,6 +57,11 @@ impl Ledger {
         true
     }
     fn can(&self, t: usize) -> bool { self.clone().adv(t) }
+    fn pc_name(&self, t: usize) -> &'static str {
+        match self.pcs[t] { Pc::Start => "start", Pc::PollBeforeMeta => "PollBeforeMeta", Pc::PollHoldingMeta => "PollHoldingMeta", Pc::PollAfterCheck => "PollAfterCheck",
+            Pc::WriteBeforeNotify => "WriteBeforeNotify", Pc::WriteAfterNotify => "WriteAfterNotify", Pc::CloseBeforeMeta => "CloseBeforeMeta", Pc::CloseHoldingMeta => "CloseHoldingMeta",
+            Pc::DropAfterDecision => "DropAfterDecision", Pc::UpgradeBetween => "UpgradeBetween", Pc::Finished => "finished" }
+    }
     fn finished(&self, t: usize, repoll: &[bool]) -> bool { self.pcs[t] == Pc::Finished && !repoll[t] }
 }
 
@@ -233,9 +238,12 @@ fn finish(sink: &mut Sink, p: &Program, joined: Vec<(Handle, Vec<String>, Option
     if forced { sink.line("cfinal", &format!("value={value} closed={} woken={}", closed as u8, fmt_list(&woken))); }
 }
 
+static TIMEOUTS: std::sync::atomic::AtomicUsize = std::sync::atomic::AtomicUsize::new(0);
+
 fn run_forced(sink: &mut Sink, id: &str, p: &Program, atomic_drop: bool, sched: &[(usize, bool)], repolls: usize) {
     sink.case(id);
     let st = setup(p);
+    let mut led = Ledger { pcs: vec![Pc::Start; p.ops.len()], ops: p.ops.clone(), readers: vec![], writer: None, meta: None, nc: st.n_clones, st: st.n_clones + st.n_subs, atomic_drop };
     let ops: Vec<String> = p.ops.iter().map(|o| o.text()).collect();
     sink.line(&format!("cnew {} {} {} {} {}", atomic_drop as u8, p.init, st.n_clones, st.n_subs, ops.join(";")), "ok");
     let n = p.ops.len();
@@ -258,6 +266,7 @@ fn run_forced(sink: &mut Sink, id: &str, p: &Program, atomic_drop: bool, sched: 
             released[t] = true;
             sh.cv.notify_all();
         }
+        if !expect_block { led.adv(t); }
         if expect_block {
             // it must not arrive: give it a moment, then look
             std::thread::sleep(Duration::from_millis(3));
@@ -282,9 +291,18 @@ fn run_forced(sink: &mut Sink, id: &str, p: &Program, atomic_drop: bool, sched: 
         drop(d);
         released[t] = false;
         match ev {
-            Some(Ev::At(pp)) => sink.line(&format!("adv {t}"), &format!("at {}", point_name(pp))),
-            Some(Ev::Done(r)) => sink.line(&format!("adv {t}"), &format!("done {r}")),
-            None => { sink.line(&format!("adv {t}"), "timeout"); sink.oracle_fail("C02,C04", &format!("thread {t} did not reach its next pause point within 5 s (unexpected blocking)")); timed_out = true; }
+            Some(Ev::At(pp)) => {
+                sink.line(&format!("adv {t}"), &format!("at {}", point_name(pp)));
+                // the thread is somewhere else than the schedule assumed: the rest of the schedule is meaningless
+                if point_name(pp) != led.pc_name(t) { timed_out = true; }
+            }
+            Some(Ev::Done(r)) => { sink.line(&format!("adv {t}"), &format!("done {r}")); if led.pc_name(t) != "finished" { timed_out = true; } }
+            None => {
+                sink.line(&format!("adv {t}"), "timeout");
+                sink.oracle_fail("C02,C04", &format!("thread {t} did not reach its next pause point within 5 s (unexpected blocking)"));
+                timed_out = true;
+                TIMEOUTS.fetch_add(1, Ordering::SeqCst);
+            }
         }
     }
     // let every worker run to completion: unlimited tokens, then join
@@ -346,6 +364,7 @@ pub fn run(args: &Args, sink: &mut Sink) {
         for (i, sc) in scheds.iter().enumerate() {
             if step > 1 && i % step != (args.seed as usize) % step { continue; }
             n += 1;
+            if TIMEOUTS.load(Ordering::SeqCst) >= 3 { continue; } // something is badly off: do not spend 5 s on every remaining schedule
             run_forced(sink, &format!("F{n}:{name}"), &p, atomic_drop, sc, repolls);
         }
     }
